@@ -332,6 +332,8 @@ def _make_simlink_class():
                                     break
                                 sch.sleep(0.0001)
                             if self.closed:
+                                # the application closed the link before the dead link was noticed: nothing is reported
+                                w.fault_fired = False
                                 return
                         busy = _busy()
                         w.fault_context = {'dispatcher_busy': busy, 'time': sch.now}
